@@ -302,3 +302,122 @@ func (h *hdrObj) classAt(at ssa.Instruction) map[string]bool {
 	}
 	return out
 }
+
+// hdrPair is one combination of definitions of two fields that can hold
+// together at a program point (nil = the initial definition).
+type hdrPair struct{ A, B *ssa.Store }
+
+// reachingPairs is the product form of reaching: which combinations of
+// definitions of root.<fa> and root.<fb> can reach `at` on one path.
+func (h *hdrObj) reachingPairs(fa, fb string, at ssa.Instruction) []hdrPair {
+	isA := map[*ssa.Store]bool{}
+	isB := map[*ssa.Store]bool{}
+	for _, st := range h.fieldStores(fa) {
+		isA[st] = true
+	}
+	for _, st := range h.fieldStores(fb) {
+		isB[st] = true
+	}
+	type state map[hdrPair]bool
+	transfer := func(b *ssa.BasicBlock, s state, upto ssa.Instruction) state {
+		res := state{}
+		for k := range s {
+			res[k] = true
+		}
+		for _, in := range b.Instrs {
+			if in == upto {
+				break
+			}
+			if in == h.Create {
+				res = state{hdrPair{}: true}
+			}
+			if st, ok := in.(*ssa.Store); ok && (isA[st] || isB[st]) {
+				n := state{}
+				for k := range res {
+					if isA[st] {
+						k.A = st
+					} else {
+						k.B = st
+					}
+					n[k] = true
+				}
+				res = n
+			}
+		}
+		return res
+	}
+	in := map[*ssa.BasicBlock]state{}
+	out := map[*ssa.BasicBlock]state{}
+	for _, b := range h.Fn.Blocks {
+		in[b], out[b] = state{}, state{}
+	}
+	for changed := true; changed; {
+		changed = false
+		for _, b := range h.Fn.Blocks {
+			ns := state{}
+			for _, p := range b.Preds {
+				for k := range out[p] {
+					ns[k] = true
+				}
+			}
+			in[b] = ns
+			no := transfer(b, ns, nil)
+			if len(no) != len(out[b]) {
+				changed = true
+			} else {
+				for k := range no {
+					if !out[b][k] {
+						changed = true
+					}
+				}
+			}
+			out[b] = no
+		}
+	}
+	var res []hdrPair
+	for k := range transfer(at.Block(), in[at.Block()], at) {
+		res = append(res, k)
+	}
+	sort.Slice(res, func(i, j int) bool {
+		pi, pj := token.NoPos, token.NoPos
+		if res[i].A != nil {
+			pi = res[i].A.Pos()
+		}
+		if res[j].A != nil {
+			pj = res[j].A.Pos()
+		}
+		if pi != pj {
+			return pi < pj
+		}
+		qi, qj := token.NoPos, token.NoPos
+		if res[i].B != nil {
+			qi = res[i].B.Pos()
+		}
+		if res[j].B != nil {
+			qj = res[j].B.Pos()
+		}
+		return qi < qj
+	})
+	return res
+}
+
+// typeflagClass names the member class of a constant Typeflag definition
+// (nil = zero value = regular file).
+func typeflagClass(st *ssa.Store) string {
+	if st == nil {
+		return "FILE"
+	}
+	k, ok := st.Val.(*ssa.Const)
+	if !ok || k.Value == nil {
+		return "?"
+	}
+	switch k.Int64() {
+	case '5':
+		return "DIR"
+	case '2', '1':
+		return "LINK"
+	case '0', 0:
+		return "FILE"
+	}
+	return fmt.Sprintf("SPECIAL(%c)", rune(k.Int64()))
+}
